@@ -122,7 +122,7 @@ def removeId (id : Nat) : List Holder → List Holder
   | h :: l => if h.id = id then l else h :: removeId id l
 
 /-- admission: `CanCreate()` on the manager reached through `take`, then `Increase()` there; the holder will release through `rel` -/
-def admit (s : State) (id : Nat) (r : Res) (take rel : Path) : State × Bool :=
+def acquire (s : State) (id : Nat) (r : Res) (take rel : Path) : State × Bool :=
   if validPath s take && validPath s rel then
     let m := mgrOf s take
     if canCreate (s.mgr m) r then
@@ -226,13 +226,13 @@ def update (code : Code) (s : State) (primary : Bool) (thr : Thr) (sameType : Bo
   { res.1 with cur := s.nInfo, hosts := res.2 }
 
 inductive Op where
-  | admit (id : Nat) (r : Res) (take rel : Path)
+  | acquire (id : Nat) (r : Res) (take rel : Path)
   | release (id : Nat)
   | update (primary : Bool) (thr : Thr) (sameType : Bool) (nNew : Nat)
 deriving DecidableEq, Repr
 
 def step (code : Code) (s : State) : Op → State
-  | .admit id r take rel => (admit s id r take rel).1
+  | .acquire id r take rel => (acquire s id r take rel).1
   | .release id => release s id
   | .update p thr st n => update code s p thr st n
 
